@@ -4,7 +4,7 @@ BASELINE_OFF = ("cd /repo && cargo nextest run --workspace --no-fail-fast --offl
                 "|| cargo test --workspace --no-fail-fast --offline")
 
 HOOK_COMMITS = [
-    "50201a0", "d3f199e", "acd85d7", "e72a8b2", "eac93cc",
+    "50201a0", "d3f199e", "acd85d7", "e72a8b2", "eac93cc", "570b590", "c58d318", "7808783",
     # filled by hand after each hook commit in /repo:  git -C /repo log --grep '^hook:' --format=%h
 ]
 
@@ -57,6 +57,42 @@ CHECKS = {
               "schedules beyond the enumerated ones, counter overflow."),
         technique="SMT (z3) validation of the semi-naive variant sets and plans dumped from the real engine + Kani/CBMC on the timestamp range kernels",
     ),
+    "C05": dict(
+        category="model_checking",
+        text=("Kernel-level bounded model checking (Kani/CBMC) of the real merge-expression interpreter ResolvedMergeFn::run, every arm: "
+              "old / new / constants; :no-merge raises the panic function exactly when the two values differ and never silently keeps "
+              "either; primitive merges are applied to the operands in the written order, nested arguments are evaluated first, a failing "
+              "primitive panics; function-valued merges look the value up. All operand values and all results of nested calls are symbolic."),
+        design_ref="DESIGN.md §2 C05",
+        note=("Kernel level only: that the merge is APPLIED on every collision (table collision paths, rebuild collisions, parallel insert) "
+              "and the fold's order independence are outside; external calls and lookups are stubbed by recorders."),
+        technique="bounded model checking of the real Rust code with Kani/CBMC (SAT), symbolic operands and stubbed environment",
+    ),
+    "C18": dict(
+        category="model_checking",
+        text=("Kernel-level bounded model checking (Kani/CBMC) of the scheduler's residual-match bookkeeping on the real "
+              "scheduler::Matches: for every set of 4 distinct matches and every sequence of <= 4 choose() calls with arbitrary "
+              "(possibly repeated) indices, instantiate applies one action row per call, removes exactly the chosen matches from the "
+              "residual and keeps every other match exactly once; choose_all applies all and delays none."),
+        design_ref="DESIGN.md §2 C18",
+        note=("Kernel level only, variable-free tuple layout. Outside: that every match is offered, equalities arising between offer and "
+              "application, error paths, can_stop."),
+        technique="bounded model checking of the real Rust code with Kani/CBMC (SAT), symbolic match values and chosen indices",
+    ),
+    "C13": dict(
+        engine="E2-planval",
+        category="translation_validation",
+        text=("Subsumption, decided in two parts. (E2) The real engine runs generated histories that insert rows, subsume some (top level "
+              "and from rule actions), re-insert subsumed tuples, run the rule and finally `(check body)`; the hook dumps the plans of "
+              "the rule and of the check; z3 decides over all databases with arbitrary subsume flags that no rule plan can match a "
+              "subsumed row (and none loses a match on live rows) while every check plan still matches subsumed rows; every history is "
+              "also compared concretely with the body's meaning. (E1) Kani decides that combining subsume flags is absorbing in either "
+              "order and that the flag / timestamp columns are where the plans look for them."),
+        design_ref="DESIGN.md §2 C13",
+        note=("Partial: matching and check only. Outside: flag survival through rebuild of congruent rows, rehash, parallel insert, "
+              "push/pop; extraction; delete; merge functions (cannot be subsumed)."),
+        technique="SMT (z3) validation of rule and check plans dumped from the real engine with symbolic subsume flags + Kani/CBMC on the flag algebra",
+    ),
     "C16": dict(
         category="model_checking",
         text=("Bounded model checking (Kani/CBMC) of the table store's index / scan kernels from arbitrary symbolic states: "
@@ -73,10 +109,11 @@ CHECKS = {
         category="model_checking",
         text=("Kernel-level bounded model checking (Kani/CBMC) of what congruence closure rests on: the canonicaliser "
               "Canonicalizer::rebuild_buf (all hand-specialised arms) and rebuild_val rewrite exactly the listed columns to their "
-              "union-find representatives for every forest of 4 ids and every row; the union-find itself is C17."),
+              "union-find representatives for every forest of 4 ids and every row; the UnionId merge kernel keeps, for every pair of ids, "
+              "the id the real union-find makes the representative and stages exactly one union per conflict; the union-find itself is C17."),
         design_ref="DESIGN.md §2 C01",
         note=("Kernel level only. Outside: EGraph::rebuild's fixpoint loop, congruence through key collisions in SortedWritesTable, "
-              "matching modulo equality, UnionId merge kernel until the bridge harness lands."),
+              "matching modulo equality."),
         technique="bounded model checking of the real Rust code with Kani/CBMC (SAT) from symbolic union-find forests and rows",
     ),
     "C17": dict(
